@@ -55,6 +55,17 @@ def main():
     os.dup2(os.open(os.devnull, os.O_WRONLY), 2)
     import warnings
     warnings.filterwarnings('ignore')
+    # watchdog: a hang anywhere (driver loop, gate, TLC) is a machinery failure, never an endless run
+    import faulthandler
+    import signal
+
+    def on_alarm(signum, frame):
+        print('MACHINERY-FAILURE property=%s: watchdog expired' % a.pid, file=ctx.real_stdout, flush=True)
+        faulthandler.dump_traceback(file=ctx.real_stdout)
+        ctx.cleanup()
+        os._exit(2)
+    signal.signal(signal.SIGALRM, on_alarm)
+    signal.alarm(900 if a.tier == 'quick' else 4 * 3600)
     rc = 2
     try:
         drv = importlib.import_module("harness.drivers." + a.pid.lower())
